@@ -1353,6 +1353,8 @@ def selected_branch(it, e, v, env, depth=0):
         if t == FALSE:
             return selected_branch(it, e['else'], v, env, depth + 1) if e['else'] else None
         return None
+    if k == 'loop' and e.get('src') == 'Loop':
+        return selected_branch(it, e['body'], v, env, depth + 1)        # first round of a `loop { match tracked { .. } }`
     if k == 'match' and e['src'] == 'Normal' and it.is_tracked(e['scrut'], env):
         for a in e['arms']:
             m = it.pat_matches(a['pat'], v)
@@ -1400,6 +1402,24 @@ def r8_ref_transparent(c, facts, rule='C02.R8'):
                 hleaf = selected_branch(it, h.hir['body'], 'Reference', henv)
                 if hleaf is not None and any(x['k'] == 'call' and callee_id(x) == h.id for x, _ in hir_walk(hleaf)):
                     selfcall = True
+        if not selfcall:
+            # the recursion written as a loop: `loop { match expr { .., Expr::Reference(_, v) => expr = v.0, .. } }` - the arm
+            # does nothing but put the referenced value where the next round of the same match reads it
+            body = leaf
+            while body['k'] == 'block' and not body['stmts'] and body.get('expr'):
+                body = body['expr']
+            if body['k'] == 'block' and len(body['stmts']) == 1 and not body.get('expr') and body['stmts'][0]['k'] in ('expr', 'semi'):
+                body = body['stmts'][0]['e']
+            if body['k'] == 'assign' and body['l']['k'] == 'path' and body['l']['p'].get('res') == 'local':
+                tgt = body['l']['p']['hid']
+                rhs = body['r']
+                while rhs['k'] in ('field', 'unary', 'deref') and (rhs['k'] != 'field' or rhs['name'] == '0'):
+                    rhs = rhs.get('base') or rhs.get('e')
+                from_ref = rhs['k'] == 'path' and rhs['p'].get('res') == 'local'
+                for e, anc in hir_walk(fn.hir['body']):
+                    if e['k'] == 'match' and e['scrut']['k'] == 'path' and e['scrut']['p'].get('hid') == tgt and any(a[0]['k'] == 'loop' for a in anc) and from_ref \
+                            and any(x is leaf or x is body for arm in e['arms'] for x, _ in hir_walk(arm['body'])):
+                        selfcall = True
         inst = {'cast': name, 'on Reference': 'recurses into the referenced value' if selfcall else 'does something else'}
         if selfcall:
             c.ok(R, inst)
